@@ -3,7 +3,9 @@
 set -e
 cd "$(dirname "$0")"
 export CARGO_NET_OFFLINE=true
+python3 tools/regen.py
 python3 tools/extract.py /repo lean/QuicModel/Generated >/dev/null
+export CARGO_TARGET_DIR="$(pwd)/.cache/target"
 (cd lean && lake build 2>&1 | tail -3)
 for h in harness/*/; do
   [ -f "$h/Cargo.toml" ] || continue
